@@ -15,7 +15,7 @@ import runner
 from defs import Defs, const_ints
 from flow import Flow
 from mir import callee_of, op_const, op_int, op_local, op_place, rv_operands
-from paths import err_assign_blocks, ok_assign_blocks
+from paths import err_assign_blocks, must_pass, ok_assign_blocks
 from report import Report
 
 PID = "C08"
@@ -161,7 +161,7 @@ def run(tier="quick", replay=None):
                "reader's size limit equals the writer's last threshold and the one-byte/empty classes mirror the writer; and that "
                "pairs are written marker, first, rest. Decides these structural clauses, not byte-identity with clvmr for all atoms.",
                "MIR symbolic expression recovery + closed-form comparison + dominance rules")
-    prog, _, infos = runner.load("default")
+    prog, cprog, infos = runner.load("default", want_clvmr=True)
     R.facts_info = infos
     seed = int(os.environ.get("VERIF_SEED", "0") or 0)
     R.trusted = ["rustc MIR construction", "the closed form of the CLVM serialisation format (stated in serialize.rs's header comment)"]
@@ -432,6 +432,100 @@ def run(tier="quick", replay=None):
                         f1, f2, marker), fn=f.path)
     if not found:
         R.viol("R08.c", "R08.c|anchor-lost|pair-arm", ITER_NEXT, "anchor lost: the Pair arm of the serialising iterator")
+
+    # ---------------- R08.g the reader accepts no wider length prefix than the consensus reader ---------------
+    # Sibling constants: clvmr rejects a prefix whose size blob is longer than N bytes (`size_blob.len() > N`); the local
+    # reader counts the leading one-bits of the first byte (its loop counter) and must reject the same widths - otherwise a
+    # malformed over-long prefix becomes a value where the consensus reader reports an error.
+    rdr = prog.fn(READER)
+    cdec = cprog.fn("serde::parse_atom::decode_size_with_offset") if cprog is not None else None
+    if rdr is None or cdec is None:
+        R.viol("R08.g", "R08.g|anchor-lost", READER, "anchor lost: atom_from_stream or clvmr's decode_size_with_offset")
+    else:
+        def width_bound(fn, counter_pred):
+            """Largest accepted width from a `x > K` / `x >= K` test on a width value that leads to an error."""
+            ffl = Flow(fn)
+            best = None
+            for bb, _, st in fn.stmts():
+                rv = st["rv"]
+                if rv["k"] == "bin" and rv["op"] in ("Gt", "Ge") and op_int(rv["b"]) is not None and op_local(rv["a"]) is not None:
+                    if counter_pred(fn, ffl, op_local(rv["a"])):
+                        k = op_int(rv["b"]) if rv["op"] == "Gt" else op_int(rv["b"]) - 1
+                        if 2 <= k <= 8:
+                            best = k if best is None else min(best, k)
+            return best
+
+        def is_len(fn, ffl, l):
+            for x in ffl.back_pure([l]):
+                for _, _, s3 in fn.stmts():
+                    if ffl.node(s3["pl"]) == x and s3["rv"]["k"] == "un" and s3["rv"]["op"] in ("PtrMetadata", "Len"):
+                        return True
+            return bool(ffl.derives_from_call(l, lambda c: c.endswith("::len")))
+
+        def is_counter(fn, ffl, l):
+            # a usize that is incremented by one in a loop
+            for x in ffl.back_pure([l]):
+                for _, _, s3 in fn.stmts():
+                    if s3["rv"]["k"] == "bin" and s3["rv"]["op"].startswith("Add") and op_int(s3["rv"]["b"]) == 1 \
+                            and op_local(s3["rv"]["a"]) == x and x in ffl.forward([s3["pl"]["l"]]):
+                        return True
+            return False
+        cons_w = width_bound(cdec, is_len)
+        loc_w = width_bound(rdr, is_counter)
+        R.check(cons_w is not None and loc_w is not None and loc_w <= cons_w, "R08.g", "R08.g|prefix-width", "%s:%s" % (rdr.file, rdr.line),
+                "auto: the local reader rejects length prefixes wider than %s byte(s); the consensus reader accepts at most %s" % (loc_w, cons_w),
+                "atom_from_stream accepts length prefixes of up to %s byte(s) but the consensus reader (clvmr decode_size_with_offset) "
+                "rejects anything wider than %s: an over-long prefix (first byte 0xFE) is decoded to a value instead of an error" % (
+                    loc_w if loc_w is not None else "any number of", cons_w), fn=READER)
+
+    # ---------------- R08.f chunks reach the stream one by one, in the iterator's order -------------------
+    # The serialised form is the concatenation of the chunks in the order the iterator yields them.  sexp_to_stream must
+    # hand every chunk to Stream::write in the iteration that produced it: on every path from `Some(chunk)` back to the
+    # next call of next() there is a write whose data is that chunk.  Buffering chunks in a local and flushing later makes
+    # the order depend on the buffering logic instead (reported even if that logic happened to be right).
+    S2S = "classic::clvm::serialize::sexp_to_stream"
+    s2 = prog.fn(S2S)
+    if s2 is None:
+        R.viol("R08.f", "R08.f|anchor-lost|sexp_to_stream", S2S, "anchor lost: sexp_to_stream")
+    else:
+        import inline
+        _bp2 = inline.default_pred(prog, s2)
+        s2v = inline.inlined(prog, s2, pred=lambda g: _bp2(g) and inline.same_module(s2, g) and g.path not in (WRITER, READER), depth=2)
+        sfl = Flow(s2v)
+        nexts = [(bb, t) for bb, t in s2v.calls() if (callee_of(t) or "") == ITER_NEXT or (callee_of(t) or "").endswith("Iterator>::next")
+                 and "SExpToBytesIterator" in (callee_of(t) or "")]
+        writes = [(bb, t) for bb, t in s2v.calls() if (callee_of(t) or "").endswith("Stream::write")]
+        ok = False
+        why = "no loop over the serialising iterator found"
+        if nexts and writes:
+            nb, nt = nexts[0]
+            item_locals = sfl.forward([nt["dest"]["l"]])
+            good_writes = []
+            for wb, wt in writes:
+                dl = op_local(wt["args"][1]) if len(wt["args"]) > 1 else None
+                if dl is None:
+                    continue
+                src = sfl.back_pure([dl])
+                growers = [c for x in src for _, tt in sfl.call_defs.get(x, []) for c in [callee_of(tt) or ""]
+                           if c.rsplit("::", 1)[-1] in ("replace", "take", "split_off", "drain", "concat", "extend_from_slice", "append")]
+                if nt["dest"]["l"] in src and not growers:
+                    good_writes.append(wb)
+            # Some edge of the match on next()'s result
+            sw = s2v.term(nt["target"]) if nt.get("target") is not None else None
+            some_b = None
+            if sw and sw["k"] == "switch":
+                arms = dict((v, tgt) for v, tgt in sw["arms"])
+                some_b = arms.get(1)
+            if some_b is None:
+                why = "the result of next() is not matched on directly"
+            elif not good_writes:
+                why = "no Stream::write whose data is the chunk just yielded"
+            else:
+                ok = must_pass(s2v, some_b, [nb], good_writes)
+                why = "a path from Some(chunk) back to next() does not write that chunk (it is buffered or dropped)"
+        R.check(ok, "R08.f", "R08.f|chunk-written-in-its-iteration", "%s:%s" % (s2.file, s2.line),
+                "auto: every chunk yielded by the serialising iterator is written to the stream before the next one is requested",
+                "sexp_to_stream: %s - the serialised bytes are no longer the iterator's chunks in order by construction" % why, fn=S2S)
 
     # ---------------- R08.e every emitted chunk comes from the checked table ------------------------
     # R08.a proves the length-class table of atom_size_blob; that is only worth something if atom_size_blob is the ONLY
